@@ -5,6 +5,8 @@ from __future__ import annotations
 import logging
 from typing import TYPE_CHECKING, Protocol
 
+import sympy
+
 from mxlpy.meta.sympy_tools import (
     fn_to_sympy,
     list_of_symbols,
@@ -14,11 +16,10 @@ from mxlpy.meta.sympy_tools import (
     sympy_to_inline_py,
     sympy_to_inline_rust,
 )
+from mxlpy.types import InitialAssignment
 
 if TYPE_CHECKING:
     from collections.abc import Callable
-
-    import sympy
 
     from mxlpy.model import Model
 
@@ -91,6 +92,45 @@ def _generate_model_code(
                 assignment_template.format(k=k, v=v) for k, v in parameters.items()
             )
         )
+
+    # Parameters given by an initial assignment: the value the model calculated for
+    # them, or their expression if they depend on a free parameter
+    initial_assignments = {
+        k: init
+        for k, v in model.get_raw_parameters().items()
+        if isinstance(init := v.value, InitialAssignment)
+    }
+    if len(initial_assignments) > 0:
+        # the cache was filled by get_parameter_values above
+        cache = model._cache or model._create_cache()  # noqa: SLF001
+        calculated = cache.all_parameter_values
+        at_start = calculated | variables | {"time": 0.0}
+        not_constant = set() if free_parameters is None else set(free_parameters)
+        for name, init in _in_dependency_order(initial_assignments):
+            if not_constant.isdisjoint(init.args):
+                source.append(
+                    assignment_template.format(k=name, v=float(calculated[name]))
+                )
+                continue
+            not_constant.add(name)
+            if any(arg not in at_start for arg in init.args):
+                msg = f"Unable to express initial assignment '{name}'"
+                raise ValueError(msg)
+            # everything but parameters enters with its value at the start
+            expr = fn_to_sympy(
+                init.fn,
+                origin=name,
+                model_args=[
+                    sympy.Symbol(arg)
+                    if arg in parameters or arg in not_constant
+                    else sympy.Float(at_start[arg])
+                    for arg in init.args
+                ],
+            )
+            if expr is None:
+                msg = f"Unable to parse fn for initial assignment '{name}'"
+                raise ValueError(msg)
+            source.append(assignment_template.format(k=name, v=sympy_inline_fn(expr)))
 
     # Derived and reactions. A derived value may use a derived value declared after
     # it or a reaction, so they are written in the order of their dependencies
